@@ -809,6 +809,13 @@ fn syscall_fault_case(cx: &mut Cx) {
     }
     // the unfaulted trace: write-side calls between the marker (rmdir of a path that does not exist) and the report on stderr
     let (trace, err0) = run(None, &mut serial);
+    if !err0.contains("flush=ok") && !err0.contains("flush=err") {
+        // the child never got as far as flushing (strace or the harness binary could not be started): a harness problem,
+        // not an observation about the code under test
+        cx.count("syscall-fault:child-did-not-run(not-judged)");
+        let _ = std::fs::remove_dir_all(&dir);
+        return;
+    }
     if !err0.contains("flush=ok") {
         cx.violation("flush-failed-without-any-fault", format!("an undisturbed flush in a fresh process failed: {}", err0.chars().take(200).collect::<String>()), json!({}));
         let _ = std::fs::remove_dir_all(&dir);
@@ -934,7 +941,7 @@ fn syscall_fault_case(cx: &mut Cx) {
     cx.count_n("syscall-fault:faulted-flushes-judged", judged);
     // and an undisturbed flush still works afterwards (left-over temporary files must not stand in the way)
     let (_, err) = run(None, &mut serial);
-    if !err.contains("flush=ok") {
+    if err.contains("flush=err") {
         cx.violation("flush-fails-after-earlier-faults", format!("an undisturbed flush after the faulted ones failed: {}", err.chars().take(200).collect::<String>()), json!({}));
     }
     if judged >= 4 && kinds_seen.len() >= 3 {
